@@ -1,3 +1,4 @@
+import LibconfigModel.Generated.Constants
 import LibconfigModel.LookupSpec
 import LibconfigModel.WF
 import LibconfigModel.Step
@@ -81,5 +82,12 @@ def sample : Node :=
 example : lookupFrom sample [97, 98, 46, 91, 49, 93, 58, 120, 45, 121, 47, 91, 49, 93] = some [1, 1, 0, 1] := by decide
 example : lookupFrom sample [97, 98, 46, 91, 50, 93] = none := by decide
 example : lookupFrom sample [97, 46, 91, 48, 93] = none := by decide
+
+/-- Bridge: the path separators of this run's sources are the documented `:`, `.`, `/`. -/
+theorem C06_separators :
+    Generated.PATH_TOKENS = [58, 46, 47] ∧ ∀ c, c < 256 → (isPathSep c = true ↔ c ∈ Generated.PATH_TOKENS) := by
+  refine ⟨by decide, ?_⟩
+  intro c _
+  simp [isPathSep, Generated.PATH_TOKENS, or_assoc]
 
 end Libconfig.C06
